@@ -24,6 +24,22 @@ if kill:
 
             def put(self, item):
                 if (gg, ww) == (g, w) and Q.n == k:
+                    # what this worker has put so far must be OUT of the process first: a process killed while its queue feeder thread
+                    # is in the middle of a pipe write leaves the queue's write lock held and every sibling blocked - a hazard of
+                    # multiprocessing.Queue below the model's granularity (DESIGN 7.2), not what this tier is about
+                    import time as _t
+
+                    for _ in range(1000):
+                        buf = getattr(qu, "_buffer", None)
+                        lock = getattr(qu, "_wlock", None)
+                        if not buf:
+                            if lock is None:
+                                break
+                            if lock.acquire(timeout=0.5):
+                                lock.release()
+                                break
+                        _t.sleep(0.005)
+                    _t.sleep(0.05)
                     open(out + ".killed", "w").close()      # the fault was really injected (a worker may send fewer messages)
                     os.kill(os.getpid(), sig)
                     if sig != signal.SIGKILL:
